@@ -138,6 +138,10 @@ def basic_constant_propagation(nodes: Iterable[ir.Node]) -> None:
 
 class ReferenceEvaluator:
     def get_evaluator(self, domain: str, op: str, version: int) -> Callable | None:
+        if domain == "" and version < 13 and op in ("Softmax", "LogSoftmax", "Hardmax"):
+            # onnx.reference only implements the opset-13 semantics (softmax along one axis);
+            # before opset 13 the input is coerced to 2-D at `axis`.
+            return None
         try:
             op_impl_class = onnx.reference.ops.load_op(domain, op, version)
             return op_impl_class.eval  # noqa: TRY300
